@@ -89,6 +89,13 @@ func ignoredReq(name string) bool {
 // table0: the h2 client advertises SETTINGS_HEADER_TABLE_SIZE = 0 and decodes with a 0-byte dynamic table
 var table0 bool
 
+// clientSettings: further SETTINGS of the h2 client (group Y: a small SETTINGS_INITIAL_WINDOW_SIZE);
+// altTransport: the reverse proxy's RoundTripper instead of the real http.Transport + backend (group Y)
+var (
+	clientSettings []h2wire.Setting
+	altTransport   http.RoundTripper
+)
+
 func newEnv(rep *ev.Report, preserve bool, script func(*bubble.RecReq) *bubble.RespScript) *env {
 	fingerproxy.VerifSetFlags(fingerproxy.VerifFlags{PreserveHost: preserve, Probe: true, Flush: "100ms", Idle: "180s", Read: "60s", Write: "60s", TLSHandshake: "10s"})
 	to, _ := url.Parse("http://backend.internal:8080")
@@ -98,6 +105,9 @@ func newEnv(rep *ev.Report, preserve bool, script func(*bubble.RecReq) *bubble.R
 	tr := h.(*reverseproxy.HTTPHandler).VerifReverseProxy().Transport.(*http.Transport)
 	tr.DialContext = be.Dial
 	tr.Proxy = nil
+	if altTransport != nil {
+		h.(*reverseproxy.HTTPHandler).VerifReverseProxy().Transport = altTransport
+	}
 	st := bubble.NewStack(bubble.StackOpts{Handler: h, Build: func(ctx context.Context, hh http.Handler, tc *tls.Config) *proxyserver.Server {
 		return fingerproxy.VerifDefaultProxyServer(ctx, hh, tc)
 	}})
@@ -115,7 +125,7 @@ func newEnv(rep *ev.Report, preserve bool, script func(*bubble.RecReq) *bubble.R
 		c2.Dec = h2wire.NewDecoderSize(0)
 		e.h2 = bubble.NewH2SessionWith(c2, h2wire.Setting{ID: 1, Val: 0})
 	} else {
-		e.h2 = bubble.NewH2Session(c2)
+		e.h2 = bubble.NewH2SessionWith(c2, clientSettings...)
 	}
 	synctest.Wait()
 	return e
@@ -124,7 +134,9 @@ func newEnv(rep *ev.Report, preserve bool, script func(*bubble.RecReq) *bubble.R
 func (e *env) close() {
 	e.st.Shutdown()
 	if h, ok := e.st.Handler.(*reverseproxy.HTTPHandler); ok {
-		h.VerifReverseProxy().Transport.(*http.Transport).CloseIdleConnections()
+		if tr, ok := h.VerifReverseProxy().Transport.(*http.Transport); ok {
+			tr.CloseIdleConnections()
+		}
 	}
 	e.be.Close()
 }
@@ -641,6 +653,9 @@ func TestCheck(t *testing.T) {
 				jobs = append(jobs, func() { concurrent(t, rep, nstreams, ord, rel) })
 			}
 		}
+	}
+	for _, j := range groupY(t, rep) {
+		jobs = append(jobs, job(j))
 	}
 	rep.Info["jobs_total"] = len(jobs)
 	for i, j := range jobs {
